@@ -52,9 +52,28 @@ def load(patterns, entries=None):
         os.unlink(path)
 
 
+_ESC = {}
+
+
+def escaping_sites():
+    """file:line of the allocation sites of /repo that the gc compiler moves to the heap (go build -gcflags=-m)"""
+    if 'set' not in _ESC:
+        r = subprocess.run(['go', 'build', '-gcflags=-m', './20', './30', './31', './40'], cwd='/repo', env=GOENV, stdout=subprocess.PIPE, stderr=subprocess.STDOUT, universal_newlines=True)
+        s = set()
+        for line in r.stdout.splitlines():
+            if 'escapes to heap' in line or 'moved to heap' in line:
+                p = line.split(':')
+                if len(p) >= 3 and p[0].endswith('.go'):
+                    f = p[0][2:] if p[0].startswith('./') else p[0]
+                    s.add('/repo/%s:%s:%s' % (f, p[1], p[2]))
+        _ESC['set'] = s
+    return _ESC['set']
+
+
 def run_harness(prog, fname, tables=None, max_unwind=400, params=None):
     ex = Executor(prog, tables, max_unwind)
     ex.params = dict(params or {})
+    ex.escaping = escaping_sites()
     ex.run_inits()
     ex.harness = fname
     t0 = time.time()
@@ -150,7 +169,11 @@ def discharge(ex, kind='z3', timeout=600, log=None, want_models=True, only=None,
             s.sync(extra=120)
         t0 = time.time()
         st, model = s.check(TM.name(o['viol']), want_model=want_models, vars_=sorted(q.vars))
+        if st == 'unsat' and o.get('incomplete'):
+            st = 'unknown'
         r = {'index': i, 'kind': o['kind'], 'label': o['label'], 'pos': o['pos'], 'fn': o['fn'], 'status': st, 'time': time.time() - t0, 'model': model}
+        if o.get('incomplete'):
+            r['errors'] = [o['incomplete']]
         if st == 'unsat' and o['kind'] == 'assert':
             # reachability witness: the assertion is reached under the assumptions
             st2, _ = s.check(TM.name(o['guard']))
